@@ -39,7 +39,7 @@ COMPONENTS = {
     "real": ["_evaluator_results.py (contexts, labels, transforms, splitting)", "EnsembleEvaluator", "results.* (_immutable_copy)", "filters", "VariableScaler"],
     "stub": ["SimEvaluator in hostile modes", "sim/scripted optimizer", "objective/constraint scalers"],
 }
-PROBES = ["buffer_reused", "calls_checked", "inactive_entry_seen", "garbage_entries", "memo_hits", "readonly_arrays", "split_gradient_call",
+PROBES = ["inactive_realization_seen", "buffer_reused", "calls_checked", "inactive_entry_seen", "garbage_entries", "memo_hits", "readonly_arrays", "split_gradient_call",
           "values_checked", "twin_compared", "results_immutability_checked", "transform_with_memo", "nan_rows", "batch_call",
           "zero_weight_from_filter"]
 
@@ -213,6 +213,14 @@ def execute(scn: dict) -> dict:
         # ---- 3. inactive only if weight zero; split gradient: zero weight => inactive ---------------
         for kind, n, act in (("o", c["no"], call.active_objectives), ("c", c["nc"], call.active_constraints)):
             if act is None:
+                if call.kind == "g" and call.active_objectives is not call.active_constraints:
+                    # flags exist for the other kind of function only: for this kind everything counts as active
+                    for j in range(n):
+                        w, filtered = oracles.weights_in_force(ln, kind, j)
+                        if w is not None and np.any(np.asarray(w) == 0):
+                            viol.append({"clause": "zero-weight-entry-active-in-split-gradient", "sig": {"filtered": filtered, "flags": "absent for this kind"},
+                                         "detail": f"call {call.k} (gradient-only): weights {np.asarray(w).tolist()} of {kind}{j} contain zeros but no activity flags are given for "
+                                                   f"{'objectives' if kind == 'o' else 'constraints'} (they are for the other kind)"})
                 continue
             for j in range(n):
                 w, filtered = oracles.weights_in_force(ln, kind, j)
@@ -230,6 +238,18 @@ def execute(scn: dict) -> dict:
                     elif call.kind == "g" and w[r] == 0:
                         viol.append({"clause": "zero-weight-entry-active-in-split-gradient", "sig": {"filtered": filtered},
                                      "detail": f"call {call.k} (gradient-only): entry ({kind}{j}, realization {r}) has weight 0 but is flagged active"})
+        if call.active is not None:
+            # the per-realization summary an evaluator may use instead of the per-function flags
+            for r in range(nr):
+                if call.active[r]:
+                    continue
+                probe("inactive_realization_seen")
+                for kind, n in (("o", c["no"]), ("c", c["nc"])):
+                    for j in range(n):
+                        w, filtered = oracles.weights_in_force(ln, kind, j)
+                        if w is not None and w[r] != 0:
+                            viol.append({"clause": "inactive-realization-has-weight", "sig": {"filtered": filtered, "kind": call.kind},
+                                         "detail": f"call {call.k} ({call.kind}): context.active flags realization {r} as not needed, but the weight in force of {kind}{j} there is {w[r]!r}"})
         if call.kind == "g" and call.active_objectives is None:
             # all flagged active: then no weight in force may be zero
             for kind, n in (("o", c["no"]), ("c", c["nc"])):
